@@ -54,6 +54,8 @@ WORKLOADS = {
     "traits": ("w_traits.cpp", ()),
     "anysnd_sim": ("w_anysnd.cpp", ()),
     "anysnd_inplace": ("w_anysnd.cpp", ()),
+    "anysched_sim": ("w_anysnd.cpp", ()),
+    "anysched_inplace": ("w_anysnd.cpp", ()),
     "coro": ("w_coro.cpp", ()),
     "io_epoll": ("w_io.cpp", ("fdlayer", "uring")),
     "io_uring": ("w_io.cpp", ("fdlayer", "uring")),
@@ -385,6 +387,8 @@ PROPS = {
             B("w_anysnd.cpp", "anysnd_sim", quick=4, thorough=60, oracles=["c18.", "c01.", "c02.", "c04."] + RT_ALL),
             B("w_anysnd.cpp", "anysnd_inplace", quick=3, thorough=45, oracles=["c18.", "c01.", "c02.", "c04."] + RT_ALL),
             B("w_anysnd.cpp", "anysnd_sim", cfg="S17r", quick=3, thorough=45, oracles=["c18.", "c01.", "c02.", "c04."] + RT_ALL),
+            B("w_anysnd.cpp", "anysched_sim", quick=3, thorough=45, oracles=["c18.", "c01.", "c02.", "c04."] + RT_ALL),
+            B("w_anysnd.cpp", "anysched_inplace", quick=2, thorough=30, oracles=["c18.", "c01.", "c02.", "c04."] + RT_ALL),
         ],
         level_text=("(b) Seeded operation sequences on three basic_any_object<24,8,RequireNoexceptMove,...> wrappers (both settings) and any_unique "
                     "wrappers: in-place construction from small / large(heap) / throwing-move / over-aligned tracked types, value assignment, "
@@ -400,9 +404,13 @@ PROPS = {
                     "inplace_stop_token: 1-3 operations in sequence on one stop source, the wrapped sender's connect() throwing or operator new failing "
                     "while the erased operation is built, stop requested before connect / after a failed connect / racing the completion: a failed "
                     "connect leaves no callback registered on the receiver's source (what a direct connect of the wrapped sender does), nothing started or leaked; a "
-                    "successful one delivers the wrapped result, forwards stop, and leaves no registration behind."),
+                    "successful one delivers the wrapped result, forwards stop, and leaves no registration behind. any_scheduler / any_scheduler_ref over "
+                    "inline_scheduler, a single_thread_context scheduler and a static_thread_pool scheduler: copies compare equal, equality of wrappers "
+                    "equals equality of the wrapped schedulers, 1-4 schedule() operations through the wrapper complete where schedule() of the wrapped "
+                    "scheduler does (inline / on the context's thread / on a pool thread), done only after a stop request, a failed allocation of the "
+                    "erased operation leaves nothing registered."),
         level_note=("Honest scope: (b) has no concurrency or time in it; what this family contributes is seeded op+fault sequences against a model, "
-                    "the poisoned arena and replay/shrinking. Not driven: any_ref, any_scheduler/any_scheduler_ref equality, swap."),
+                    "the poisoned arena and replay/shrinking. Not driven: any_ref, swap."),
         real=["basic_any_object (inline and heap storage, invalid_obj parking)", "any_unique", "any_sender_of<> (+inplace_stop_token_adapter_subscription)", "type_erased_stream"],
         stub=["tracked wrapped types", "heap with injected bad_alloc (usim arena)"],
     ),
